@@ -192,6 +192,12 @@ impl WorkerPool {
 
                     // Process all packets in the batch
                     for packet in batch.drain(..) {
+                        #[cfg(feature = "verif-hooks")]
+                        crate::verif_hooks::sched::point(
+                            crate::verif_hooks::sched::Site::WorkerDequeue,
+                            worker_id,
+                            &packet,
+                        );
                         match Self::process_packet(
                             &packet,
                             &mut http_flows,
@@ -210,6 +216,12 @@ impl WorkerPool {
                                 dropped.fetch_add(1, Ordering::Relaxed);
                             }
                         }
+                        #[cfg(feature = "verif-hooks")]
+                        crate::verif_hooks::sched::point(
+                            crate::verif_hooks::sched::Site::WorkerProcessed,
+                            worker_id,
+                            &packet,
+                        );
                     }
                 }
                 Err(RecvTimeoutError::Timeout) => {
@@ -259,6 +271,12 @@ impl WorkerPool {
     }
 
     pub fn dispatch(&self, packet: Vec<u8>) -> DispatchResult {
+        #[cfg(feature = "verif-hooks")]
+        crate::verif_hooks::sched::point(
+            crate::verif_hooks::sched::Site::DispatchEnter,
+            usize::MAX,
+            &packet,
+        );
         // Don't accept new packets if shutting down
         if self.shutdown_flag.load(Ordering::Relaxed) {
             self.dropped_count.fetch_add(1, Ordering::Relaxed);
@@ -266,6 +284,12 @@ impl WorkerPool {
         }
 
         let worker_id = packet_hash::hash_flow(&packet, self.num_workers);
+        #[cfg(feature = "verif-hooks")]
+        crate::verif_hooks::sched::point(
+            crate::verif_hooks::sched::Site::DispatchChosen,
+            worker_id,
+            &packet,
+        );
 
         self.dispatched_count.fetch_add(1, Ordering::Relaxed);
 
@@ -273,6 +297,12 @@ impl WorkerPool {
             match sender.try_send(packet) {
                 Ok(()) => DispatchResult::Queued,
                 Err(_) => {
+                    #[cfg(feature = "verif-hooks")]
+                    crate::verif_hooks::sched::point(
+                        crate::verif_hooks::sched::Site::DispatchDropped,
+                        worker_id,
+                        &[],
+                    );
                     self.dropped_count.fetch_add(1, Ordering::Relaxed);
                     self.worker_dropped[worker_id].fetch_add(1, Ordering::Relaxed);
                     DispatchResult::Dropped
